@@ -93,6 +93,20 @@ func c17PKI() []*c17Root {
 			panic(fmt.Sprintf("root 3 is expected to parse with a non-fatal error only, got cert=%v err=%v", pc != nil, perr))
 		}
 		c17Roots = append(c17Roots, &c17Root{k, tmpl, der}) // the template stands in as issuer when leaves are signed
+		// root 4: root 0 re-issued — same subject, same key, another serial number and validity: a DIFFERENT certificate. A log
+		// that lists root 4 does not list root 0.
+		r0 := c17Roots[0]
+		re := &stdx509.Certificate{
+			SerialNumber: big.NewInt(5), Subject: r0.cert.Subject,
+			NotBefore: time.Date(2020, 1, 1, 0, 0, 0, 0, time.UTC), NotAfter: time.Date(2050, 1, 1, 0, 0, 0, 0, time.UTC),
+			IsCA: true, BasicConstraintsValid: true, KeyUsage: stdx509.KeyUsageCertSign,
+		}
+		der4, err := stdx509.CreateCertificate(rand.Reader, re, re, &r0.key.PublicKey, r0.key)
+		if err != nil {
+			panic(err)
+		}
+		c4, _ := stdx509.ParseCertificate(der4)
+		c17Roots = append(c17Roots, &c17Root{r0.key, c4, der4})
 	})
 	return c17Roots
 }
@@ -415,6 +429,31 @@ func c17GenDist(r *verifkit.Rand) *c17DistScenario {
 	sc.deadline = c17Long * time.Millisecond
 	if r.Intn(3) == 0 {
 		sc.deadline = time.Duration(c17Deadlines[r.Intn(len(c17Deadlines))]) * time.Millisecond
+	}
+	if !fallback && !sc.twoRefreshes && sc.rootIdx != 3 && r.Intn(8) == 0 {
+		// re-issued root: the chain ends in root 0 and carries it; some logs list the re-issued certificate (root 4: same
+		// subject and key, another certificate) INSTEAD of root 0 — they do not accept the chain's root
+		// (at least one log with a client keeps root 0 itself, so that the path the distributor validates ends in root 0: with
+		// only the re-issued certificate known, the validated path would be leaf, root 0, root 4 and root 4 the chain's root)
+		sc.rootIdx, sc.withRoot = 0, true
+		anchored := false
+		for _, l := range sc.logs {
+			if l.rootsErr {
+				continue
+			}
+			if !anchored && l.status >= 1 && l.status <= 3 {
+				l.roots, anchored = []int{0}, true
+				continue
+			}
+			if r.Intn(2) == 0 {
+				l.roots = []int{4}
+			} else if r.Intn(2) == 0 {
+				l.roots = []int{0}
+			} else {
+				l.roots = []int{0, 1, 2, 3}
+			}
+		}
+		return sc
 	}
 	switch r.Intn(6) {
 	case 0:
